@@ -6,6 +6,6 @@ open PsdVerif.Switches
 def sites : List Site := [
   { site := "psd_tools.api:10", callee := "warnings.catch_warnings", atRuntime := true, restored := true },
   { site := "psd_tools.api:11", callee := "warnings.simplefilter", atRuntime := true, restored := true },
-  { site := "psd_tools.composite:599", callee := "numpy.errstate", atRuntime := true, restored := true }
+  { site := "psd_tools.composite:609", callee := "numpy.errstate", atRuntime := true, restored := true }
 ]
 end PsdVerif.Generated.Switches
